@@ -113,6 +113,33 @@ static void run_history(int tier)
     }
 }
 
+/* ---- cfg 4: domains whose length does not fit 16 bits (build with SDO_DS2 >= 70100) ---- */
+static void run_large(int tier)
+{
+    static const uint32_t LS[] = { 65535, 65536, 65543, 70000, 131072, 131079 };
+    for (unsigned si = 0; si < sizeof LS / sizeof LS[0] && !mc_deadline_hit(); si++) {
+        uint32_t S = LS[si];
+        if (S + 16 > sizeof PAY || (!tier && S > 70000)) continue;
+        for (uint32_t L = S - 1; L <= S + 1; L++) for (int mode = 2; mode < 4; mode++) for (int announce = 0; announce < 2; announce++) {
+            int tx = 0, app = 1, X = (int)(65536u / 7u), al[12] = { 0, 1, 125, 127, 128, X - 128, X - 2, X - 1, X, X + 1, X + 127, 0 };
+            mc_case(6, 0, (int)S, (int)L, mode, announce, -1);
+            domain_case(S, L, mode, announce, 0, 0, &tx, &app);
+            if (mode != 3 || L > S) continue;
+            al[11] = tx - 2;
+            for (int i = 0; i < 12 && !mc_deadline_hit(); i++) {
+                int lose[2] = { al[i], -1 };
+                if (al[i] < 0 || al[i] >= tx) continue;
+                mc_case(7, 0, (int)S, (int)L, mode, announce, al[i], -1);
+                domain_case(S, L, mode, announce, lose, 1, 0, &app);
+                if (!tier && i != 8) continue;
+                lose[1] = al[i] + 130;          /* a second loss in the block that follows the repeated one */
+                mc_case(7, 0, (int)S, (int)L, mode, announce, lose[0], lose[1]);
+                domain_case(S, L, mode, announce, lose, 2, 0, &app);
+            }
+        }
+    }
+}
+
 static void run_domains(int tier)
 {
     int *sizes = tier ? all_sizes : quick_sizes; int ns = tier ? n_all : (int)(sizeof quick_sizes / sizeof quick_sizes[0]);
@@ -286,6 +313,7 @@ static void run_cfg(int cfg, int tier)
     if (cfg == 0) run_domains(tier);
     else if (cfg == 1) run_basic();
     else if (cfg == 3) run_history(tier);
+    else if (cfg == 4) run_large(tier);
 #if CO_SSDO_N > 1
     else run_two(tier);
 #endif
@@ -306,6 +334,6 @@ static void run_case(const int *c, int n)
 #endif
 }
 
-static const char *cfg_name(int c) { return c == 0 ? "domains" : c == 1 ? "basic objects" : c == 2 ? "two servers" : "after an earlier completed or abandoned transfer"; }
-static const mc_enum E = { "C02", "c02", 4, cfg_name, run_cfg, run_case };
+static const char *cfg_name(int c) { return c == 0 ? "domains" : c == 1 ? "basic objects" : c == 2 ? "two servers" : c == 4 ? "domains longer than 65535 bytes" : "after an earlier completed or abandoned transfer"; }
+static const mc_enum E = { "C02", "c02", 5, cfg_name, run_cfg, run_case };
 int main(int argc, char **argv) { return mc_enum_main(argc, argv, &E); }
